@@ -8,6 +8,11 @@ BASE = json.load(open('/root/.vp/BASELINE.json'))['cmd'] if os.path.exists('/roo
 # id -> (engine, category, technique, level text, level note, design ref)
 E3NOTE = "Sequentially consistent interleavings at synchronisation granularity (locks, channels, select, WaitGroup, go statements, injected file-system effect points); atomics and un-instrumented dependencies (zapx, bbolt, roaring) execute atomically between scheduling points; timers never fire; exploration is exhaustive up to the stated deviation bound, not beyond. The source rewrite is regenerated from /repo's current tree on every run."
 CHECKS = {
+ "C15": ("E1-opseq", "model_checking",
+         "explicit-state breadth-first search over operation sequences with canonical-state dedup; every transition re-executes the real KV store adapter",
+         "Breadth-first search over operation sequences on the real boltdb, goleveldb, gtreap and moss adapters and the metrics wrapper: execute a batch of ≤2 entries from Set/Delete/Merge(+1) over keys {a, a\\x00, a\\xff, a\\xffb, b, \\xff} and values {'', 1, 2}, open a reader, close a reader (depth 3 quick / 4 thorough, plus every single batch from the empty store). Every transition replays its path on a fresh store under a hang watchdog and compares — on a fresh reader and on every still-open reader against the model as of its creation — Get of every key and an absent one, MultiGet, PrefixIterator for 5 prefixes and RangeIterator for all (start,end) pairs incl. nil bounds, plain and after Seek to every key, as exact key/value sequences against a sorted-map model with a counter merge operator. States merged by (per-key model fact, multiset of open snapshot contents).",
+         "boltdb initialMmapSize 16 MiB (a bbolt writer that must grow the mmap waits for open read transactions); moss's background merger is not controlled (classes are stable, instance counts vary); three moss / store_api defects are known findings and mask those exact patterns only.",
+         "DESIGN.md §5 C15"),
  "C19": ("E2-space", "model_checking",
          "exhaustive enumeration of all byte strings up to a length bound over a boundary alphabet through every registered analysis component; exhaustive term-location enumeration for highlighters",
          "For every analyzer, tokenizer, token filter and char filter found in the registry at run time (minimal configurations where one is required; filters driven by several tokenizers), ALL strings of ≤3 symbols (quick; 4–5 thorough) over a 14-symbol alphabet (ASCII classes, multi-byte scripts, ZWNJ, emoji, invalid bytes 0xff / truncated 0xc3) plus long-token patterns: no panic, termination, and for tokenizers 0≤Start≤End≤len, non-decreasing starts, positive non-decreasing positions. Highlighters are driven directly on every short stored value with every term location and location pair (rune-splitting and out-of-range included), and through real indexes on both engines: each fragment, markup and escaping removed, is a contiguous slice of the stored value and each marked span is the text at a reported location.",
